@@ -72,11 +72,42 @@ def theorems_of(module):
     return names
 
 
+def refused_by_translator(module):
+    """functions of /repo the translators (extract_fn.py, extract_while.py) REFUSED on this run - their text lies outside the
+    translated fragment - in a Generated file the module imports (marker `def unsupported_<name>`)"""
+    out = []
+    for m in lean_closure(module):
+        if m.startswith("PfVerif.Generated."):
+            f = os.path.join(LEAN_DIR, *m.split(".")) + ".lean"
+            out += re.findall(r"^def unsupported_(\w+)", open(f).read(), re.M)
+    return sorted(set(out))
+
+
+# extension modules whose translator tie does not apply to the code as it is written on this run: {module: [functions]}
+TIE_NOT_APPLICABLE = {}
+
+
 def prop_modules(prop):
-    """Props/Cxx.lean plus extension files Props/Cxx_<name>.lean"""
+    """Props/Cxx.lean plus extension files Props/Cxx_<name>.lean.
+
+    An extension module of the TRANSLATOR tie (C01_fn, C04_fn, C08_fn, C11_fn) states `generated definition = model` about
+    functions translated from /repo. If a function's text lies outside the fragment the translator understands (a rewrite with
+    a helper, an index loop, two passes ...) there is no generated definition to state the obligation about: the translator tie
+    is then NOT APPLICABLE to that module on this run and the functions stay tied to their models the way every other kernel
+    is - by the correspondence check of the property's own harness. That is recorded (evidence, NOTE line), not reported as a
+    violation: the first version did report `no-failing-input-found` and so raised an alarm on six of 44 harmless rewrites. A
+    function that IS translated and whose obligation fails still breaks the build and is searched / reported as before."""
     d = os.path.join(LEAN_DIR, "PfVerif", "Props")
     names = sorted(f[:-5] for f in os.listdir(d) if f == prop + ".lean" or (f.startswith(prop + "_") and f.endswith(".lean")))
-    return ["PfVerif.Props." + n for n in names]
+    keep = []
+    for n in names:
+        m = "PfVerif.Props." + n
+        r = refused_by_translator(m) if n != prop else []
+        if r:
+            TIE_NOT_APPLICABLE[m] = r
+        else:
+            keep.append(m)
+    return keep
 
 
 def audit(prop, build_ok):
@@ -198,6 +229,9 @@ def main():
         print("BROKEN: audit problems:\n  " + "\n  ".join(problems))
         sys.exit(2)
 
+    for _m, _r in sorted(TIE_NOT_APPLICABLE.items()):
+        print(f"NOTE: translator tie not applicable on this run for {_m}: {', '.join(_r)} outside the translated fragment "
+              f"(tied by the correspondence check only)")
     # 3. correspondence + spec predicates on the implementation
     from common import Ctx, load_known_findings, DriverError
     ctx = Ctx(prop, tier, seed)
@@ -234,6 +268,8 @@ def main():
         ext_dir = os.path.join(HERE, "props")
         for f in sorted(os.listdir(ext_dir)):
             if f.startswith(prop.lower() + "_") and f.endswith(".py"):
+                if ("PfVerif.Props." + prop + f[len(prop):-3]) in TIE_NOT_APPLICABLE:
+                    continue    # its generated definitions do not exist on this run; the base harness still compares the kernels
                 ext = importlib.import_module("props." + f[:-3])
                 ext.run(ctx)
                 ctx.flush()
@@ -335,7 +371,8 @@ def main():
         "driver_oob_panics": ctx.panics,
         "leanchecker": leanchecker,
         "extract": extract_note,
-        "notes": ctx.notes,
+        "notes": ctx.notes + [f"translator tie not applicable on this run for {m}: {', '.join(r)} lie(s) outside the translated fragment "
+                              f"(tied by the correspondence check only)" for m, r in sorted(TIE_NOT_APPLICABLE.items())],
         "object_history": dict(__import__("common").HISTORY_STATS),
         "argument_layouts": dict(__import__("common").LAYOUT_STATS),
         "auxiliary_queries_validated": __import__("common").AUX_STATS["validated"],
